@@ -45,6 +45,12 @@ TAGS = [
     [(0xC2, b"\x00"), (0xC3, b"\x02")],
     [(0x13, bytes(209))],                              # one over the limit
     [(0x14, bytes(255))],                              # longest tag value
+    # the encryption tag id with values that are NOT the one-byte value 02: the component stays plain
+    [(0xC2, b"\x00\x02")],
+    [(0xC2, b"\x02\x00")],
+    [(0xC2, b"")],
+    [(0xC2, b"\x01")],
+    [(0xC2, b"\x03"), (0xC3, b"\x02")],
 ]
 TAGS_OVER = {8, 9}
 LENS = [1, 2, 15, 16, 17, 31, 32, 33, 39, 40, 41, 79, 80, 81, 256, 1000]
